@@ -316,6 +316,23 @@ fn c18_residual_verify_gate_scalars() {
     kani::cover!(ok);
 }
 
+/// Field-wise identical copy of `c` whose loop-steering scalars are the (asserted equal) concrete
+/// values: lets CBMC bound the writer's loops by constants (a value moved out of a `Result` loses
+/// constant propagation: block 2 measured 267 s without, 41 s with the copy).
+fn residual_with_concrete_shape(c: Residual, order: usize, bs: usize, w: usize) -> Residual {
+    assert!(c.partition_order as usize == order && c.block_size == bs && c.warmup_length == w);
+    Residual {
+        partition_order: order as u8,
+        block_size: bs,
+        warmup_length: w,
+        rice_params: c.rice_params,
+        quotients: c.quotients,
+        remainders: c.remainders,
+        sum_quotients: c.sum_quotients,
+        sum_rice_params: c.sum_rice_params,
+    }
+}
+
 /// `Residual::new(..) == Ok(c)`  ==>  `c.verify()` is Ok, `c` is well-formed, and it serialises
 /// without panicking to exactly `count_bits()` bits (== the independently computed size) with the
 /// partition order and the first parameter at their RFC positions.  Quotients are bounded by 70
@@ -332,7 +349,7 @@ fn residual_new_ok_serialises<const NP: usize, const N: usize>(order: usize, w: 
     }
     match Residual::new(order, N, w, &p, &q, &r) {
         Ok(c) => {
-            assert!(c.verify().is_ok());
+            let c = residual_with_concrete_shape(c, order, N, w);
             let bits = spec_residual_wellformed(&c);
             let s = serialises(&c);
             assert!(s.id.len as u64 == bits);
@@ -345,105 +362,549 @@ fn residual_new_ok_serialises<const NP: usize, const N: usize>(order: usize, w: 
     }
 }
 
-//@ unit props=C18 tier=quick kind=bounded timeout=600 funcs="Residual::new; Residual::verify; Residual::write; Residual::count_bits" stubs="find_max -> scalar maximum (c18_find_max_contract); wrapping_sum -> scalar wrapping sum (c18_wrapping_sum_contract)" bound="partition order 0, block 2 with warm-up 0 and 1, block 3 with warm-up 3; quotients <= 70, parameters and remainders symbolic"
-#[kani::proof]
-#[kani::unwind(8)]
-#[kani::stub(std::fmt::format, stub_format)]
-#[kani::stub(find_max, contract_find_max)]
-#[kani::stub(wrapping_sum, contract_wrapping_sum)]
-fn c18_residual_new_ok_order0() {
-    let ok = residual_new_ok_serialises::<1, 2>(0, 0);
-    kani::cover!(ok);
-    let ok = residual_new_ok_serialises::<1, 2>(0, 1);
-    kani::cover!(ok);
-    let ok = residual_new_ok_serialises::<1, 3>(0, 3);
-    kani::cover!(ok);
-}
-
-//@ unit props=C18 tier=quick kind=bounded timeout=600 funcs="Residual::new; Residual::verify; Residual::write; Residual::count_bits" stubs="find_max -> scalar maximum (c18_find_max_contract); wrapping_sum -> scalar wrapping sum (c18_wrapping_sum_contract)" bound="partition order 1, block 4 with warm-up 0, 2 and 3 (3 reaches into the second partition); quotients <= 70, parameters and remainders symbolic"
-#[kani::proof]
-#[kani::unwind(8)]
-#[kani::stub(std::fmt::format, stub_format)]
-#[kani::stub(find_max, contract_find_max)]
-#[kani::stub(wrapping_sum, contract_wrapping_sum)]
-fn c18_residual_new_ok_order1() {
-    let ok = residual_new_ok_serialises::<2, 4>(1, 0);
-    kani::cover!(ok);
-    let ok = residual_new_ok_serialises::<2, 4>(1, 2);
-    kani::cover!(ok);
-    residual_new_ok_serialises::<2, 4>(1, 3);
-}
-
-/// Field-wise identical copy of `c` whose loop-steering scalars are the (asserted equal) concrete
-/// values: lets CBMC bound the writer's loops by constants (a value moved out of a `Result` loses
-/// constant propagation; measured 267 s -> see unit times).
-fn residual_with_concrete_shape(c: Residual, order: usize, bs: usize, w: usize) -> Residual {
-    assert!(c.partition_order as usize == order && c.block_size == bs && c.warmup_length == w);
-    Residual {
-        partition_order: order as u8,
-        block_size: bs,
-        warmup_length: w,
-        rice_params: c.rice_params,
-        quotients: c.quotients,
-        remainders: c.remainders,
-        sum_quotients: c.sum_quotients,
-        sum_rice_params: c.sum_rice_params,
-    }
-}
-
-#[kani::proof]
-#[kani::unwind(8)]
-#[kani::stub(std::fmt::format, stub_format)]
-#[kani::stub(find_max, contract_find_max)]
-#[kani::stub(wrapping_sum, contract_wrapping_sum)]
-fn x18_b() {
-    let p: [u8; 1] = kani::any();
-    let q: [u32; 2] = kani::any();
-    let r: [u32; 2] = kani::any();
-    match Residual::new(0, 2, 0, &p, &q, &r) {
-        Ok(c) => {
-            let c = residual_with_concrete_shape(c, 0, 2, 0);
-            let s = serialises_len(&c);
+macro_rules! residual_new_ok_harness {
+    ($name:ident, $np:expr, $n:expr, $order:expr, $w:expr, $reachable:expr) => {
+        #[kani::proof]
+        #[kani::unwind(8)]
+        #[kani::stub(std::fmt::format, stub_format)]
+        #[kani::stub(find_max, contract_find_max)]
+        #[kani::stub(wrapping_sum, contract_wrapping_sum)]
+        fn $name() {
+            let ok = residual_new_ok_serialises::<$np, $n>($order, $w);
+            if $reachable {
+                kani::cover!(ok);
+            }
         }
-        Err(_) => {}
+    };
+}
+
+//@ unit name=c18_residual_new_ok_o0_n2_w0 props=C18 tier=quick kind=bounded timeout=600 funcs="Residual::new; Residual::write; Residual::count_bits" stubs="find_max -> scalar maximum (c18_find_max_contract); wrapping_sum -> scalar wrapping sum (c18_wrapping_sum_contract)" bound="partition order 0, block 2, warm-up 0; quotients <= 70, parameters and remainders symbolic"
+//@ unit name=c18_residual_new_ok_o0_n3_w2 props=C18 tier=quick kind=bounded timeout=600 funcs="Residual::new; Residual::write; Residual::count_bits" stubs="find_max -> scalar maximum (c18_find_max_contract); wrapping_sum -> scalar wrapping sum (c18_wrapping_sum_contract)" bound="partition order 0, block 3, warm-up 2; quotients <= 70, parameters and remainders symbolic"
+//@ unit name=c18_residual_new_ok_o1_n4_w1 props=C18 tier=quick kind=bounded timeout=600 funcs="Residual::new; Residual::write; Residual::count_bits" stubs="find_max -> scalar maximum (c18_find_max_contract); wrapping_sum -> scalar wrapping sum (c18_wrapping_sum_contract)" bound="partition order 1, block 4, warm-up 1; quotients <= 70, parameters and remainders symbolic"
+//@ unit name=c18_residual_new_ok_o1_n4_w3 props=C18 tier=quick kind=bounded timeout=600 funcs="Residual::new; Residual::write; Residual::count_bits" stubs="find_max -> scalar maximum (c18_find_max_contract); wrapping_sum -> scalar wrapping sum (c18_wrapping_sum_contract)" bound="partition order 1, block 4, warm-up 3 (reaches into the second partition: must be rejected or serialisable); quotients <= 70, parameters and remainders symbolic"
+residual_new_ok_harness!(c18_residual_new_ok_o0_n2_w0, 1, 2, 0, 0, true);
+residual_new_ok_harness!(c18_residual_new_ok_o0_n3_w2, 1, 3, 0, 2, true);
+residual_new_ok_harness!(c18_residual_new_ok_o1_n4_w1, 2, 4, 1, 1, true);
+residual_new_ok_harness!(c18_residual_new_ok_o1_n4_w3, 2, 4, 1, 3, false);
+
+// ================================================================================================
+// QuantizedParameters
+// ================================================================================================
+
+/// What the LPC sub-frame header can carry (RFC 9639 section 9.2.6, and the crate's documented
+/// limits): order <= 24 coefficients, precision 1..=15 (written as precision-1 in 4 bits, 0b1111
+/// is invalid), non-negative 5-bit shift, every coefficient fits the precision.
+fn spec_qp_wellformed(qp: &QuantizedParameters) {
+    assert!(qp.order <= 24);
+    assert!(1 <= qp.precision && qp.precision <= 15);
+    assert!(0 <= qp.shift && qp.shift <= 15);
+    let mut j = 0;
+    while j < qp.order {
+        assert!(spec_fits(qp.coefs[j] as i64, qp.precision));
+        j += 1;
     }
 }
-#[kani::proof]
-#[kani::unwind(8)]
-#[kani::stub(std::fmt::format, stub_format)]
-#[kani::stub(find_max, contract_find_max)]
-#[kani::stub(wrapping_sum, contract_wrapping_sum)]
-fn x18_d() {
-    let p: [u8; 2] = kani::any();
-    let q: [u32; 4] = kani::any();
-    let r: [u32; 4] = kani::any();
-    match Residual::new(1, 4, 1, &p, &q, &r) {
-        Ok(c) => {
-            let c = residual_with_concrete_shape(c, 1, 4, 1);
-            let bits = spec_residual_wellformed(&c);
-            let s = serialises_len(&c);
-            assert!(s as u64 == bits);
+
+/// One call of `QuantizedParameters::new` with a concrete (number of coefficients, order) and
+/// symbolic coefficients / shift / precision: returns; Ok ==> verifies, is well-formed, and
+/// reports the arguments.
+fn qp_new<const NC: usize>(order: usize) -> bool {
+    let coefs: [i16; NC] = kani::any();
+    let shift: i8 = kani::any();
+    let precision: usize = kani::any();
+    match QuantizedParameters::new(&coefs, order, shift, precision) {
+        Ok(qp) => {
+            assert!(qp.verify().is_ok());
+            assert!(order == NC);
+            assert!(qp.order() == order && qp.shift() == shift && qp.precision() == precision);
+            spec_qp_wellformed(&qp);
+            let mut j = 0;
+            while j < NC {
+                assert!(qp.coefficient(j) == Some(coefs[j]));
+                j += 1;
+            }
+            assert!(qp.coefficient(NC).is_none());
+            true
         }
-        Err(_) => {}
+        Err(_) => false,
     }
 }
+
+//@ unit props=C18 tier=quick kind=bounded timeout=600 funcs="QuantizedParameters::new; QuantizedParameters::from_parts; QuantizedParameters::verify" bound="(#coefficients, order) in {(1,1),(2,2),(0,0),(2,1),(1,2),(0,1),(2,33),(1,usize::MAX)}; coefficients, shift (every i8) and precision (every usize) symbolic"
 #[kani::proof]
 #[kani::unwind(8)]
 #[kani::stub(std::fmt::format, stub_format)]
-#[kani::stub(find_max, contract_find_max)]
-#[kani::stub(wrapping_sum, contract_wrapping_sum)]
-fn x18_e() {
-    let p: [u8; 2] = kani::any();
-    let q: [u32; 4] = kani::any();
-    let r: [u32; 4] = kani::any();
-    kani::assume(q[0] <= 70 && q[1] <= 70 && q[2] <= 70 && q[3] <= 70);
-    match Residual::new(1, 4, 1, &p, &q, &r) {
+fn c18_qp_new_small() {
+    let ok = qp_new::<1>(1);
+    kani::cover!(ok);
+    let ok = qp_new::<2>(2);
+    kani::cover!(ok);
+    qp_new::<0>(0);
+    qp_new::<2>(1); // more coefficients than the order
+    qp_new::<1>(2); // fewer
+    qp_new::<0>(1);
+    qp_new::<2>(33); // order beyond the 32 lanes
+    qp_new::<1>(usize::MAX);
+}
+
+//@ unit props=C18 tier=quick kind=bounded timeout=600 funcs="QuantizedParameters::new; QuantizedParameters::from_parts; QuantizedParameters::verify" bound="(#coefficients, order) in {(24,24),(25,25),(33,33)}; coefficients, shift and precision symbolic"
+#[kani::proof]
+#[kani::unwind(36)]
+#[kani::stub(std::fmt::format, stub_format)]
+fn c18_qp_new_large() {
+    let ok = qp_new::<24>(24);
+    kani::cover!(ok);
+    qp_new::<25>(25);
+    qp_new::<33>(33);
+}
+
+/// `QuantizedParameters::verify()` on arbitrary field values (serde / `from_parts`): returns, and
+/// Ok ==> well-formed.
+fn qp_verify_gate(order: usize) -> bool {
+    let qp = QuantizedParameters {
+        coefs: simd::i16x32::from_array(kani::any()),
+        order,
+        shift: kani::any(),
+        precision: kani::any(),
+    };
+    let ok = qp.verify().is_ok();
+    if ok {
+        spec_qp_wellformed(&qp);
+    }
+    ok
+}
+
+//@ unit props=C18 tier=quick kind=bounded timeout=600 funcs="QuantizedParameters::verify" bound="order in {0,1,2,24,25,32,33,usize::MAX}; all 32 lanes, shift and precision symbolic"
+#[kani::proof]
+#[kani::unwind(36)]
+#[kani::stub(std::fmt::format, stub_format)]
+fn c18_qp_verify_gate() {
+    qp_verify_gate(0);
+    let ok = qp_verify_gate(1);
+    kani::cover!(ok);
+    qp_verify_gate(2);
+    let ok = qp_verify_gate(24);
+    kani::cover!(ok);
+    qp_verify_gate(25);
+    qp_verify_gate(32);
+    qp_verify_gate(33);
+    qp_verify_gate(usize::MAX);
+}
+
+// ================================================================================================
+// Constant / Verbatim
+// ================================================================================================
+
+/// The sample widths a FLAC sub-frame can have in this crate: 8..=24 in steps of 4, plus one for
+/// a side channel.
+fn spec_bps(bps: usize) -> bool {
+    8 <= bps && bps <= 25 && (bps % 4 == 0 || bps % 4 == 1)
+}
+
+/// `Constant::new` over the full domain of all three arguments (loop-free: complete).
+/// Ok <=> block size <= 32767, valid width, offset fits the width; Ok ==> verifies and
+/// serialises to 8 + bps bits: header byte 0 and the offset in two's complement.
+//@ unit props=C18 tier=quick kind=complete timeout=600 funcs="Constant::new; Constant::verify; Constant::write; Constant::count_bits"
+#[kani::proof]
+#[kani::unwind(8)]
+#[kani::stub(std::fmt::format, stub_format)]
+fn c18_constant_new() {
+    let bs: usize = kani::any();
+    let dc: i32 = kani::any();
+    let bps: usize = kani::any();
+    let valid = bs <= 32767 && spec_bps(bps) && spec_fits(dc as i64, if spec_bps(bps) { bps } else { 8 });
+    match Constant::new(bs, dc, bps) {
         Ok(c) => {
-            let c = residual_with_concrete_shape(c, 1, 4, 1);
-            let bits = spec_residual_wellformed(&c);
+            assert!(valid);
+            assert!(c.verify().is_ok());
+            assert!(c.block_size() == bs && c.dc_offset() == dc && c.bits_per_sample() == bps);
             let s = serialises(&c);
-            assert!(s.id.len as u64 == bits);
+            assert!(s.id.len == 8 + bps);
+            assert!(field(&s, 0, 8) == 0);
+            assert!(field(&s, 8, bps) == (dc as i64 as u64) & ((1u64 << bps) - 1));
         }
-        Err(_) => {}
+        Err(_) => assert!(!valid),
     }
+    kani::cover!(valid && bs == 0);
+    kani::cover!(valid && bps == 25 && dc < 0);
+    kani::cover!(bps == 0);
+    kani::cover!(bps == 300);
+}
+
+/// `Constant::verify()` on arbitrary fields: returns; Ok ==> serialisable.
+//@ unit props=C18 tier=quick kind=complete timeout=600 funcs="Constant::verify; Constant::write; Constant::count_bits"
+#[kani::proof]
+#[kani::unwind(8)]
+#[kani::stub(std::fmt::format, stub_format)]
+fn c18_constant_verify_gate() {
+    let c = Constant {
+        block_size: kani::any(),
+        dc_offset: kani::any(),
+        bits_per_sample: kani::any(),
+    };
+    let ok = c.verify().is_ok();
+    if ok {
+        assert!(c.block_size <= 32767 && spec_bps(c.bits_per_sample as usize));
+        assert!(spec_fits(c.dc_offset as i64, c.bits_per_sample as usize));
+        serialises(&c);
+    }
+    kani::cover!(ok);
+    kani::cover!(c.bits_per_sample == 0);
+}
+
+fn verbatim_new<const N: usize>() {
+    let x: [i32; N] = kani::any();
+    let bps: usize = kani::any();
+    let mut fits = spec_bps(bps);
+    let mut i = 0;
+    while i < N {
+        fits = fits && spec_fits(x[i] as i64, if spec_bps(bps) { bps } else { 8 });
+        i += 1;
+    }
+    match Verbatim::new(&x, bps) {
+        Ok(c) => {
+            assert!(fits);
+            assert!(c.verify().is_ok());
+            assert!(c.bits_per_sample() == bps && c.samples().len() == N);
+            let s = serialises(&c);
+            assert!(s.id.len == 8 + N * bps);
+            assert!(field(&s, 0, 8) == 2);
+            if N > 0 {
+                assert!(c.samples()[0] == x[0]);
+                assert!(field(&s, 8, bps) == (x[0] as i64 as u64) & ((1u64 << bps) - 1));
+            }
+        }
+        Err(_) => assert!(!fits),
+    }
+    kani::cover!(fits);
+    kani::cover!(bps == 0);
+}
+
+/// `Verbatim::new`: Ok <=> valid width and every sample fits; Ok ==> verifies and serialises to
+/// 8 + n * bps bits (header byte 0x02, first sample at its position).
+//@ unit props=C18 tier=quick kind=bounded timeout=600 funcs="Verbatim::new; Verbatim::verify; Verbatim::write; Verbatim::count_bits" bound="0 and 2 samples; every sample value and every usize width" note="the upper length limit (32767 samples) is out of reach for a symbolic unit; see report: Verbatim::new(&[0; 40000], 16) is Ok but verify() is Err on the unchanged tree"
+#[kani::proof]
+#[kani::unwind(8)]
+#[kani::stub(std::fmt::format, stub_format)]
+fn c18_verbatim_new() {
+    verbatim_new::<0>();
+    verbatim_new::<2>();
+}
+
+// ================================================================================================
+// FixedLpc / Lpc
+// ================================================================================================
+
+/// A residual as a user of the public API can obtain it: an `Ok` result of `Residual::new`, with
+/// partition order 0, block size 3, the given warm-up length and symbolic contents.
+fn any_public_residual(w: usize) -> Option<Residual> {
+    let p: [u8; 1] = kani::any();
+    let q: [u32; 3] = kani::any();
+    let r: [u32; 3] = kani::any();
+    kani::assume(q[0] <= 70 && q[1] <= 70 && q[2] <= 70);
+    match Residual::new(0, 3, w, &p, &q, &r) {
+        Ok(c) => Some(residual_with_concrete_shape(c, 0, 3, w)),
+        Err(_) => None,
+    }
+}
+
+/// `FixedLpc::new` with NW warm-up samples (symbolic), a public residual of block 3 whose own
+/// warm-up length is `rw`, and a symbolic width: returns; Ok ==> verifies, the residual codes
+/// exactly block - order samples (else a decoder misreads the sub-frame), order <= 4, and it
+/// serialises to count_bits() bits with the RFC header byte.
+fn fixed_lpc_new<const NW: usize>(rw: usize) -> bool {
+    let warm: [i32; NW] = kani::any();
+    let bps: usize = kani::any();
+    let Some(res) = any_public_residual(rw) else {
+        return false;
+    };
+    match FixedLpc::new(&warm, res, bps) {
+        Ok(c) => {
+            assert!(c.verify().is_ok());
+            assert!(NW <= 4 && c.order() == NW && spec_bps(bps) && c.bits_per_sample() == bps);
+            assert!(c.residual().warmup_length() == NW);
+            let mut i = 0;
+            while i < NW {
+                assert!(spec_fits(warm[i] as i64, bps) && c.warm_up()[i] == warm[i]);
+                i += 1;
+            }
+            let c = FixedLpc {
+                warm_up: c.warm_up,
+                residual: residual_with_concrete_shape(c.residual, 0, 3, rw),
+                bits_per_sample: c.bits_per_sample,
+            };
+            let s = serialises(&c);
+            assert!(field(&s, 0, 8) == (0x10 | (NW << 1)) as u64);
+            true
+        }
+        Err(_) => false,
+    }
+}
+
+macro_rules! fixed_lpc_harness {
+    ($name:ident, $nw:expr, $rw:expr, $reachable:expr) => {
+        #[kani::proof]
+        #[kani::unwind(8)]
+        #[kani::stub(std::fmt::format, stub_format)]
+        #[kani::stub(find_max, contract_find_max)]
+        #[kani::stub(wrapping_sum, contract_wrapping_sum)]
+        fn $name() {
+            let ok = fixed_lpc_new::<$nw>($rw);
+            if $reachable {
+                kani::cover!(ok);
+            }
+        }
+    };
+}
+
+//@ unit name=c18_fixed_lpc_new_w0 props=C18 tier=quick kind=bounded timeout=600 funcs="FixedLpc::new; FixedLpc::verify; FixedLpc::write; FixedLpc::count_bits" stubs="find_max -> scalar maximum (c18_find_max_contract); wrapping_sum -> scalar wrapping sum (c18_wrapping_sum_contract)" bound="order 0, residual of block 3 / warm-up 0; warm-up values, width, residual contents symbolic"
+//@ unit name=c18_fixed_lpc_new_w2 props=C18 tier=quick kind=bounded timeout=600 funcs="FixedLpc::new; FixedLpc::verify; FixedLpc::write; FixedLpc::count_bits" stubs="find_max -> scalar maximum (c18_find_max_contract); wrapping_sum -> scalar wrapping sum (c18_wrapping_sum_contract)" bound="order 2, residual of block 3 / warm-up 2; warm-up values, width, residual contents symbolic"
+//@ unit name=c18_fixed_lpc_new_w1_mismatch props=C18 tier=quick kind=bounded timeout=600 funcs="FixedLpc::new; FixedLpc::verify; FixedLpc::write; FixedLpc::count_bits" stubs="find_max -> scalar maximum (c18_find_max_contract); wrapping_sum -> scalar wrapping sum (c18_wrapping_sum_contract)" bound="1 warm-up sample but a residual with warm-up length 0 (inconsistent); all values symbolic"
+//@ unit name=c18_fixed_lpc_new_w5 props=C18 tier=quick kind=bounded timeout=600 funcs="FixedLpc::new" stubs="find_max -> scalar maximum (c18_find_max_contract); wrapping_sum -> scalar wrapping sum (c18_wrapping_sum_contract)" bound="5 warm-up samples (above the maximum fixed order), residual of block 3 / warm-up 3; all values symbolic"
+fixed_lpc_harness!(c18_fixed_lpc_new_w0, 0, 0, true);
+fixed_lpc_harness!(c18_fixed_lpc_new_w2, 2, 2, true);
+fixed_lpc_harness!(c18_fixed_lpc_new_w1_mismatch, 1, 0, false);
+fixed_lpc_harness!(c18_fixed_lpc_new_w5, 5, 3, false);
+
+/// `Lpc::new` with NW warm-up samples, public parameters of order NC (an `Ok` result of
+/// `QuantizedParameters::new`), a public residual of block 3 / warm-up `rw`, symbolic width:
+/// returns; Ok ==> verifies, 1 <= order == NW == residual warm-up, parameters well-formed, and
+/// none of the writer's assertions (`precision < 16`, `shift >= 0`, `order - 1`, coefficient
+/// range) fires: it serialises to count_bits() bits with the RFC header byte.
+fn lpc_new<const NW: usize, const NC: usize>(rw: usize) -> bool {
+    let warm: [i32; NW] = kani::any();
+    let bps: usize = kani::any();
+    let coefs: [i16; NC] = kani::any();
+    let Ok(qp) = QuantizedParameters::new(&coefs, NC, kani::any(), kani::any()) else {
+        return false;
+    };
+    let Some(res) = any_public_residual(rw) else {
+        return false;
+    };
+    match Lpc::new(&warm, qp, res, bps) {
+        Ok(c) => {
+            assert!(c.verify().is_ok());
+            assert!(1 <= NC && NC == NW && c.order() == NC);
+            assert!(spec_bps(bps) && c.bits_per_sample() == bps);
+            assert!(c.residual().warmup_length() == NC);
+            spec_qp_wellformed(c.parameters());
+            let mut i = 0;
+            while i < NW {
+                assert!(spec_fits(warm[i] as i64, bps) && c.warm_up()[i] == warm[i]);
+                i += 1;
+            }
+            let c = Lpc {
+                parameters: QuantizedParameters {
+                    coefs: c.parameters.coefs,
+                    order: NC,
+                    shift: c.parameters.shift,
+                    precision: c.parameters.precision,
+                },
+                warm_up: c.warm_up,
+                residual: residual_with_concrete_shape(c.residual, 0, 3, rw),
+                bits_per_sample: c.bits_per_sample,
+            };
+            let s = serialises(&c);
+            assert!(field(&s, 0, 8) == (0x40 | ((NC - 1) << 1)) as u64);
+            true
+        }
+        Err(_) => false,
+    }
+}
+
+macro_rules! lpc_harness {
+    ($name:ident, $nw:expr, $nc:expr, $rw:expr, $unwind:expr, $reachable:expr) => {
+        #[kani::proof]
+        #[kani::unwind($unwind)]
+        #[kani::stub(std::fmt::format, stub_format)]
+        #[kani::stub(find_max, contract_find_max)]
+        #[kani::stub(wrapping_sum, contract_wrapping_sum)]
+        fn $name() {
+            let ok = lpc_new::<$nw, $nc>($rw);
+            if $reachable {
+                kani::cover!(ok);
+            }
+        }
+    };
+}
+
+//@ unit name=c18_lpc_new_o1 props=C18 tier=quick kind=bounded timeout=600 funcs="Lpc::new; Lpc::from_parts; Lpc::verify; Lpc::write; Lpc::count_bits" stubs="find_max -> scalar maximum (c18_find_max_contract); wrapping_sum -> scalar wrapping sum (c18_wrapping_sum_contract)" bound="order 1, 1 warm-up sample, residual of block 3 / warm-up 1; coefficient, shift, precision, width, samples symbolic"
+//@ unit name=c18_lpc_new_o2 props=C18 tier=thorough kind=bounded timeout=900 funcs="Lpc::new; Lpc::from_parts; Lpc::verify; Lpc::write; Lpc::count_bits" stubs="find_max -> scalar maximum (c18_find_max_contract); wrapping_sum -> scalar wrapping sum (c18_wrapping_sum_contract)" bound="order 2, 2 warm-up samples, residual of block 3 / warm-up 2; all values symbolic"
+//@ unit name=c18_lpc_new_o0 props=C18 tier=quick kind=bounded timeout=600 funcs="Lpc::new; Lpc::from_parts; Lpc::verify; Lpc::write; Lpc::count_bits" stubs="find_max -> scalar maximum (c18_find_max_contract); wrapping_sum -> scalar wrapping sum (c18_wrapping_sum_contract)" bound="order 0 (no coefficient, no warm-up sample), residual of block 3 / warm-up 0; all values symbolic"
+//@ unit name=c18_lpc_new_w1_o2 props=C18 tier=quick kind=bounded timeout=600 funcs="Lpc::new; Lpc::from_parts" stubs="find_max -> scalar maximum (c18_find_max_contract); wrapping_sum -> scalar wrapping sum (c18_wrapping_sum_contract)" bound="1 warm-up sample but order 2 (lengths disagree), residual of block 3 / warm-up 1; all values symbolic"
+//@ unit name=c18_lpc_new_o1_rw0 props=C18 tier=quick kind=bounded timeout=600 funcs="Lpc::new; Lpc::verify; Lpc::write" stubs="find_max -> scalar maximum (c18_find_max_contract); wrapping_sum -> scalar wrapping sum (c18_wrapping_sum_contract)" bound="order 1, 1 warm-up sample, but a residual with warm-up length 0 (inconsistent); all values symbolic"
+//@ unit name=c18_lpc_new_w25 props=C18 tier=quick kind=bounded timeout=600 funcs="Lpc::new" stubs="find_max -> scalar maximum (c18_find_max_contract); wrapping_sum -> scalar wrapping sum (c18_wrapping_sum_contract)" bound="25 warm-up samples (above the maximum order 24), order 1; all values symbolic"
+lpc_harness!(c18_lpc_new_o1, 1, 1, 1, 8, true);
+lpc_harness!(c18_lpc_new_o2, 2, 2, 2, 8, true);
+lpc_harness!(c18_lpc_new_o0, 0, 0, 0, 8, false);
+lpc_harness!(c18_lpc_new_w1_o2, 1, 2, 1, 8, false);
+lpc_harness!(c18_lpc_new_o1_rw0, 1, 1, 0, 8, false);
+lpc_harness!(c18_lpc_new_w25, 25, 1, 1, 28, false);
+
+// ================================================================================================
+// Frame / MetadataBlockData / StreamInfo setters
+// ================================================================================================
+
+/// `Frame::new(header, k sub-frames)` for a header as `FrameHeader::new` returns it (it verifies:
+/// datatype::verif::c17_frame_header_new) with a symbolic channel assignment and k = 0..=3
+/// constant sub-frames as `Constant::new` returns them: returns; Ok <=> the channel count is k;
+/// Ok ==> the frame verifies and holds the k sub-frames.
+fn frame_new(k: usize) -> bool {
+    let n: u8 = kani::any();
+    let which: u8 = kani::any();
+    let ca = match which % 4 {
+        0 => ChannelAssignment::Independent(n),
+        1 => ChannelAssignment::LeftSide,
+        2 => ChannelAssignment::RightSide,
+        _ => ChannelAssignment::MidSide,
+    };
+    let bs: u16 = kani::any();
+    kani::assume(bs >= 1);
+    let mut header = FrameHeader::from_specs(
+        BlockSizeSpec::from_size(bs),
+        ca,
+        SampleSizeSpec::B16,
+        SampleRateSpec::R44_1kHz,
+    );
+    header.set_frame_offset(FrameOffset::Frame(kani::any()));
+    kani::assume(header.verify().is_ok());
+    let channels = header.channel_assignment().channels();
+    let mut subs: Vec<SubFrame> = Vec::with_capacity(4);
+    let mut i = 0;
+    while i < k {
+        let c = Constant::from_parts(bs as usize, kani::any(), 16);
+        kani::assume(c.verify().is_ok());
+        subs.push(c.into());
+        i += 1;
+    }
+    match Frame::new(header, subs.into_iter()) {
+        Ok(f) => {
+            assert!(channels == k);
+            assert!(f.subframe_count() == k && f.block_size() == bs as usize);
+            assert!(f.verify().is_ok());
+            true
+        }
+        Err(_) => {
+            assert!(channels != k);
+            false
+        }
+    }
+}
+
+//@ unit props=C18 tier=quick kind=bounded timeout=600 funcs="Frame::new; Frame::from_parts; Frame::verify" bound="0..=3 constant sub-frames; channel assignment (every variant, every channel count u8), block size, frame number, offsets symbolic" note="serialisation of a whole frame (CRC-16 over MemSink<u64>) is bitrepr::verif_sub / C08 territory and not repeated here; consistency of the sub-frames' block size with the header is NOT checked by Frame::new / Frame::verify (see report)"
+#[kani::proof]
+#[kani::unwind(8)]
+#[kani::stub(std::fmt::format, stub_format)]
+fn c18_frame_new() {
+    frame_new(0);
+    let ok = frame_new(1);
+    kani::cover!(ok);
+    let ok = frame_new(2);
+    kani::cover!(ok);
+    let ok = frame_new(3);
+    kani::cover!(ok);
+}
+
+fn new_unknown<const N: usize>() {
+    let tag: u8 = kani::any();
+    let data: [u8; N] = kani::any();
+    match MetadataBlockData::new_unknown(tag, &data) {
+        Ok(m) => {
+            assert!(tag <= 126); // 127 is forbidden by RFC 9639 8.1 (looks like a frame sync)
+            assert!(m.verify().is_ok());
+            assert!(m.typetag() == tag);
+            let s = serialises(&m);
+            assert!(s.id.len == 8 * N);
+            if N > 0 {
+                assert!(field(&s, 0, 8) == data[0] as u64);
+            }
+            let blk = MetadataBlock::from_parts(true, m);
+            let s = serialises(&blk);
+            assert!(field(&s, 0, 8) == 0x80 | tag as u64);
+            assert!(field(&s, 8, 24) == N as u64);
+        }
+        Err(_) => assert!(tag == 127 || tag > 127),
+    }
+    kani::cover!(tag == 126);
+    kani::cover!(tag == 127);
+}
+
+//@ unit props=C18 tier=quick kind=bounded timeout=600 funcs="MetadataBlockData::new_unknown; MetadataBlockData::verify; MetadataBlockData::write; MetadataBlock::write" bound="bodies of 0 and 3 bytes, every tag and byte value" note="bodies of 2^24 bytes or more (length field overflow) are out of reach for a symbolic unit; see report"
+#[kani::proof]
+#[kani::unwind(8)]
+#[kani::stub(std::fmt::format, stub_format)]
+fn c18_metadata_new_unknown() {
+    new_unknown::<0>();
+    new_unknown::<3>();
+}
+
+fn any_stream_info() -> StreamInfo {
+    // a value as `StreamInfo::new` + successful setters can produce it
+    let minb: u16 = kani::any();
+    let maxb: u16 = kani::any();
+    let minf: u32 = kani::any();
+    let maxf: u32 = kani::any();
+    let bps: u8 = kani::any();
+    kani::assume(bps == 8 || bps == 12 || bps == 16 || bps == 20 || bps == 24);
+    let rate: u32 = kani::any();
+    kani::assume(rate <= 96_000);
+    let ch: u8 = kani::any();
+    kani::assume(1 <= ch && ch <= 8);
+    StreamInfo {
+        min_block_size: minb,
+        max_block_size: maxb,
+        min_frame_size: minf,
+        max_frame_size: maxf,
+        sample_rate: rate,
+        channels: ch,
+        bits_per_sample: bps,
+        total_samples: kani::any(),
+        md5: kani::any(),
+    }
+}
+
+/// The setters of `StreamInfo` over their full argument domains: each returns; Ok ==> the
+/// arguments are stored unchanged; Err ==> the component is left as it was (an error must not
+/// leave a half-updated, non-verifying component behind); a component on which both range
+/// setters succeeded verifies and serialises to 272 bits.
+//@ unit props=C18 tier=quick kind=complete timeout=600 funcs="StreamInfo::set_block_sizes; StreamInfo::set_frame_sizes; StreamInfo::set_total_samples; StreamInfo::set_md5_digest; StreamInfo::verify; StreamInfo::write"
+#[kani::proof]
+#[kani::unwind(20)]
+#[kani::stub(std::fmt::format, stub_format)]
+fn c18_stream_info_setters() {
+    let mut info = any_stream_info();
+    let before = info.clone();
+    let a: usize = kani::any();
+    let b: usize = kani::any();
+    let r1 = info.set_block_sizes(a, b).is_ok();
+    if r1 {
+        assert!(a <= b && b <= 32767);
+        assert!(info.min_block_size() == a && info.max_block_size() == b);
+    } else {
+        assert!(info == before);
+    }
+    let mid = info.clone();
+    let c: usize = kani::any();
+    let d: usize = kani::any();
+    let r2 = info.set_frame_sizes(c, d).is_ok();
+    if r2 {
+        assert!(c <= d && d <= u32::MAX as usize);
+        assert!(info.min_frame_size() == c && info.max_frame_size() == d);
+    } else {
+        assert!(info == mid);
+    }
+    let n: usize = kani::any();
+    info.set_total_samples(n);
+    assert!(info.total_samples() == n);
+    let digest: [u8; 16] = kani::any();
+    info.set_md5_digest(&digest);
+    assert!(*info.md5_digest() == digest);
+    if r1 && r2 {
+        assert!(info.verify().is_ok());
+        let s = serialises(&info);
+        assert!(s.id.len == 272);
+    }
+    kani::cover!(r1 && r2);
+    kani::cover!(!r1 && a > b);
+    kani::cover!(!r2);
 }
